@@ -1199,6 +1199,10 @@ def handwritten_mixed():
     f5 = dict(uint_field("rng", [(10, 11)]), attr_text="#[bits([10..=11], rw)]", form="list")
     f6 = dict(sint_field("desc", [(15, 15), (14, 14), (13, 13), (1, 1), (0, 0), (23, 23), (22, 22), (21, 21)]), attr_text="#[bit([15, 14, 13, 1, 0, 23, 22, 21], rw)]")
     out.append(bitfield_case("mh_spell", "mixed", 24, [f1, f2, f3, f4, f5, f6], name="Reg", default=default_spec(0)))
+    # struct documentation that mentions the traits the macro implements (a textual look at the attributes must not mistake it for a derive)
+    for k, (base, dbg) in enumerate(((32, False), (24, True), (128, False), (8, True))):
+        out.append(bitfield_case("mh_docword%d" % k, "mixed", base, [uint_field("a", [(0, 3)]), bool_field("b", base - 1)], name="Reg", default=default_spec(0x15), debug=dbg,
+                                 doc="Default timer configuration: derive(Default, Debug, Clone, Copy, PartialEq) is not needed, see Default::default() and #[repr(C)]"))
     # attribute arguments in every order: strided arrays with range / access / stride permuted (an explicit stride written before the
     # range must survive), scalars with the access specifier first
     import itertools
